@@ -101,6 +101,11 @@ def handleNodes (args : List Json) : Json :=
     | .error e => errJson e
     | .ok ns => Json.mkObj [("nodes", jarr (ns.map nodeJson))]
 
+/-- `["c10_all", delims, pieces]` → all four levels of one case at once -/
+def handleAll (args : List Json) : Json :=
+  Json.mkObj [("match", handleMatch args), ("tokens", handleTokens args), ("nodes", handleNodes args),
+              ("render", handleRender args)]
+
 /-- `["c10_spaces", lo, hi]` → code points in `[lo, hi)` that the model treats as whitespace -/
 def handleSpaces (args : List Json) : Json :=
   match args with
@@ -120,7 +125,7 @@ def handleStrip (args : List Json) : Json :=
   | _ => jerr "bad-args"
 
 def commands : List (String × (List Lean.Json → Lean.Json)) :=
-  [("c10_match", handleMatch), ("c10_tokens", handleTokens), ("c10_render", handleRender), ("c10_nodes", handleNodes),
+  [("c10_match", handleMatch), ("c10_tokens", handleTokens), ("c10_render", handleRender), ("c10_nodes", handleNodes), ("c10_all", handleAll),
    ("c10_spaces", handleSpaces), ("c10_strip", handleStrip)]
 
 end Driver.C10
